@@ -283,6 +283,39 @@ def good_prefix(ctx, trace_path, diffs, limit=400):
     return p
 
 
+def selftest_binding(ctx, ts, trace_path, corrs):
+    """common.selftest_binding with the corrupted logs validated concurrently (one TLC process each).
+    A corruption that the strict trace specification accepts means a vacuous binding: infrastructure error."""
+    import random
+    recs = read_ndjson(trace_path)
+    if not recs:
+        raise vlib.Infra('selftest: no accepted record to corrupt')
+    rng = random.Random(ctx.seed)
+    jobs = []
+    for name, fn in corrs:
+        bad = fn(copy.deepcopy(recs), rng)
+        if bad is None:
+            continue
+        p = os.path.join(ctx.scratch, 'selftest_%s.ndjson' % name)
+        vlib.write_ndjson(p, bad)
+        jobs.append((name, p))
+    if not jobs:
+        raise vlib.Infra('binding self-test: no corruption applicable')
+
+    def one(job):
+        name, p = job
+        return name, ctx.validate_trace(ts['dirs'], ts['module'], ts['cfg'], p)
+
+    results = []
+    with concurrent.futures.ThreadPoolExecutor(len(jobs)) as ex:
+        for name, v in ex.map(one, jobs):
+            if v['accepted']:
+                raise vlib.Infra('binding self-test: corruption %r was ACCEPTED by %s (vacuous trace spec)' % (name, ts['module']))
+            results.append({'corruption': name, 'rejected_at': v['highwater'], 'violated': v['violated']})
+    ctx.cov['binding_selftest'] = results
+    return results
+
+
 def scen_cases(behs):
     cases, exps = [], []
     for b in behs:
@@ -378,7 +411,7 @@ def run(ctx, selftest=False):
 
     # 4. binding self-test
     good = good_prefix(ctx, t1, d1)
-    common.selftest_binding(ctx, tspec('c03'), good, corruptions())
+    selftest_binding(ctx, tspec('c03'), good, corruptions())
     ctx.assumptions += [
         'operand encodings are produced by harness encoders and decoded by the real insts.Disassembler; cases whose decoded '
         'operands denote another location are skipped and counted (skipped_decode_mismatch)',
